@@ -9,6 +9,7 @@ import (
 	"errors"
 	"fmt"
 	"io"
+	"sort"
 
 	"github.com/ipfs/go-cid"
 	"github.com/ipfs/go-graphsync"
@@ -17,6 +18,7 @@ import (
 	"github.com/ipld/go-ipld-prime/datamodel"
 	"github.com/ipld/go-ipld-prime/linking"
 	cidlink "github.com/ipld/go-ipld-prime/linking/cid"
+	datatransfer "github.com/filecoin-project/go-data-transfer/v2"
 	"github.com/ipld/go-ipld-prime/node/basicnode"
 	"github.com/ipld/go-ipld-prime/traversal"
 	"github.com/ipld/go-ipld-prime/traversal/selector"
@@ -58,6 +60,12 @@ type gsMsg struct {
 
 type GSNet struct {
 	W    *World
+	// OnExt, when set, sees every extension list put on / taken off the simulated graphsync wire
+	OnExt func(from, to peer.ID, dir string, kind gsKind, exts []graphsync.ExtensionData)
+	// Delivered counts graphsync messages delivered (fault triggers)
+	Delivered int
+	// OnDeliver is called before each delivery (fault placement hook); returning true drops the message as if the connection were cut
+	OnDeliver func(from, to peer.ID, m *gsMsg) bool
 	eps  map[peer.ID]*GS
 	q    map[[2]peer.ID][]*gsMsg
 	pump map[[2]peer.ID]bool
@@ -68,7 +76,52 @@ func NewGSNet(w *World) *GSNet {
 	return &GSNet{W: w, eps: map[peer.ID]*GS{}, q: map[[2]peer.ID][]*gsMsg{}, pump: map[[2]peer.ID]bool{}}
 }
 
+// Kill removes a peer's endpoint (process death): its requests and responses vanish silently; what peers
+// still send to it fails like on a cut connection.
+func (n *GSNet) Kill(p peer.ID) {
+	if ep := n.eps[p]; ep != nil {
+		ep.dead = true
+		for _, r := range ep.out {
+			r.state = outDone
+		}
+		ep.out = map[graphsync.RequestID]*outReq{}
+		ep.in = map[graphsync.RequestID]*inResp{}
+		delete(n.eps, p)
+	}
+}
+
+// NotifyDisconnect models both sides noticing that the connection a<->b went away: graphsync's request
+// manager fires the network error listener for every in-progress outgoing request to that peer.
+func (n *GSNet) NotifyDisconnect(a, b peer.ID) {
+	for _, pr := range [][2]peer.ID{{a, b}, {b, a}} {
+		ep := n.eps[pr[0]]
+		if ep == nil {
+			continue
+		}
+		var reqs []*outReq
+		for _, r := range ep.out {
+			if r.to == pr[1] && r.state != outDone {
+				reqs = append(reqs, r)
+			}
+		}
+		sort.Slice(reqs, func(i, j int) bool { return reqs[i].seq < reqs[j].seq })
+		for _, r := range reqs {
+			rd := reqData{id: r.id, root: r.root, sel: r.sel, exts: r.exts, typ: graphsync.RequestTypeNew}
+			err := fmt.Errorf("disconnected from peer %s", pr[1])
+			other := pr[1]
+			epp := ep
+			simrt.Go(func() {
+				simrt.SetLabel(epp.Label)
+				epp.netErr.each(func(l graphsync.OnNetworkErrorListener) { l(other, rd, err) })
+			})
+		}
+	}
+}
+
 func (n *GSNet) send(from, to peer.ID, m *gsMsg) {
+	if n.OnExt != nil && len(m.exts) > 0 {
+		n.OnExt(from, to, "send", m.kind, m.exts)
+	}
 	k := [2]peer.ID{from, to}
 	n.q[k] = append(n.q[k], m)
 	if !n.pump[k] {
@@ -87,21 +140,35 @@ func (n *GSNet) runPump(k [2]peer.ID) {
 		m := n.q[k][0]
 		n.q[k] = n.q[k][1:]
 		from, to := k[0], k[1]
-		if n.W.Net.IsCut(from, to) {
+		n.Delivered++
+		drop := false
+		if n.OnDeliver != nil {
+			drop = n.OnDeliver(from, to, m)
+		}
+		if drop || n.W.Net.IsCut(from, to) || n.eps[to] == nil {
 			n.W.Logf("gsnet %s->%s DROP kind=%d (connection cut)", short(from), short(to), m.kind)
 			if m.onSent != nil {
 				m.onSent(errors.New("simgs: connection cut"))
 			}
 			if ep := n.eps[to]; ep != nil {
+				simrt.SetLabel(ep.Label)
 				ep.receiverError(from, errors.New("simgs: connection cut"))
 			}
 			continue
 		}
 		if m.onSent != nil {
 			f := m.onSent
-			simrt.Go(func() { f(nil) })
+			lbl := ""
+			if sep := n.eps[from]; sep != nil {
+				lbl = sep.Label
+			}
+			simrt.Go(func() { simrt.SetLabel(lbl); f(nil) })
 		}
 		if ep := n.eps[to]; ep != nil {
+			simrt.SetLabel(ep.Label)
+			if n.OnExt != nil && len(m.exts) > 0 {
+				n.OnExt(from, to, "recv", m.kind, m.exts)
+			}
 			ep.receive(from, m)
 		}
 	}
@@ -143,6 +210,10 @@ func (h *hookReg[T]) each(f func(T)) {
 }
 
 type GS struct {
+	Label   string
+	dead    bool
+	// Calls records the GraphExchange API calls made by the transport (harness oracles)
+	Calls   []GSCall
 	net     *GSNet
 	w       *World
 	self    peer.ID
@@ -167,13 +238,69 @@ type GS struct {
 	in  map[graphsync.RequestID]*inResp
 	// dedup: links already sent per (peer, dedup key)
 	sentLinks map[string]map[cid.Cid]int
+	ended     map[graphsync.RequestID]int
 }
 
 func (n *GSNet) NewGS(self peer.ID, lsys ipld.LinkSystem) *GS {
 	g := &GS{net: n, w: n.W, self: self, lsys: lsys, persist: map[string]ipld.LinkSystem{},
-		out: map[graphsync.RequestID]*outReq{}, in: map[graphsync.RequestID]*inResp{}, sentLinks: map[string]map[cid.Cid]int{}}
+		out: map[graphsync.RequestID]*outReq{}, in: map[graphsync.RequestID]*inResp{}, sentLinks: map[string]map[cid.Cid]int{}, ended: map[graphsync.RequestID]int{}}
 	n.eps[self] = g
 	return g
+}
+
+type GSCall struct {
+	Life int
+	gs   *GS
+	Step int
+	Kind string // request, cancel, pause, unpause, update, register, unregister
+	ID   graphsync.RequestID
+	To   peer.ID
+	Name string
+	Skip int64
+	Exts []graphsync.ExtensionData
+	Err  string
+}
+
+// EndedBy reports whether the request this call created had terminated by the given step.
+func (c *GSCall) EndedBy(step int) bool {
+	if c.gs == nil {
+		return false
+	}
+	e, ok := c.gs.ended[c.ID]
+	return ok && e <= step
+}
+
+// ActiveFor reports whether a live (not finished, not requester-cancelled) graphsync request carries the
+// data-transfer id tid on this endpoint.
+func (g *GS) ActiveFor(tid datatransfer.TransferID) bool {
+	for _, r := range g.out {
+		if r.state != outDone {
+			if m := dtOf(r.exts); m != nil && m.TransferID() == tid {
+				return true
+			}
+		}
+	}
+	for _, x := range g.in {
+		if x.state != inCompleting {
+			if m := dtOf(x.req.exts); m != nil && m.TransferID() == tid {
+				return true
+			}
+		}
+	}
+	return false
+}
+
+func (g *GS) logCall(c GSCall) int {
+	c.gs = g
+	c.Step = g.w.S.Steps
+	g.Calls = append(g.Calls, c)
+	return len(g.Calls) - 1
+}
+
+func (g *GS) setErr(i int, err *error) {
+	if *err != nil {
+		g.Calls[i].Err = (*err).Error()
+	}
 }
 
 // ---- request / response data objects handed to hooks
@@ -368,6 +495,7 @@ type outReq struct {
 	last       respData
 	termErr    error
 	stepping   bool
+	seq        int
 }
 
 func (g *GS) newRequestID() graphsync.RequestID {
@@ -397,7 +525,12 @@ func (a *outReqActions) MaxLinks(n uint64) { a.maxLinks = n }
 func (g *GS) Request(ctx context.Context, p peer.ID, root ipld.Link, sel ipld.Node, exts ...graphsync.ExtensionData) (<-chan graphsync.ResponseProgress, <-chan error) {
 	simrt.Yield("gs.request")
 	r := &outReq{id: g.newRequestID(), to: p, root: root.(cidlink.Link).Cid, sel: sel, exts: exts, lsys: g.lsys,
-		respCh: make(chan graphsync.ResponseProgress), errCh: make(chan error, 64), skips: map[int]bool{}}
+		respCh: make(chan graphsync.ResponseProgress), errCh: make(chan error, 64), skips: map[int]bool{}, seq: g.net.nreq}
+	if g.dead {
+		close(r.respCh)
+		close(r.errCh)
+		return r.respCh, r.errCh
+	}
 	r.last = respData{id: r.id, status: graphsync.RequestAcknowledged}
 	if _, err := selector.ParseSelector(sel); err != nil {
 		r.errCh <- err
@@ -425,7 +558,10 @@ func (g *GS) Request(ctx context.Context, p peer.ID, root ipld.Link, sel ipld.No
 		}
 	}
 	g.out[r.id] = r
-	g.w.Logf("gs %s Request id=%s to=%s skip=%d", short(g.self), r.id.String()[30:], short(p), r.callerSkip)
+	g.logCall(GSCall{Kind: "request", ID: r.id, To: p, Skip: r.callerSkip, Exts: exts})
+	if LogAll {
+		g.w.Logf("gs %s Request id=%s to=%s skip=%d", short(g.self), r.id.String()[30:], short(p), r.callerSkip)
+	}
 	// request cancellation through its context
 	if ctx.Done() != nil {
 		simrt.Go(func() {
@@ -456,6 +592,7 @@ func (g *GS) terminateOut(r *outReq) {
 		return
 	}
 	r.state = outDone
+	g.ended[r.id] = g.w.S.Steps
 	if r.termErr != nil {
 		select {
 		case r.errCh <- r.termErr:
@@ -465,7 +602,9 @@ func (g *GS) terminateOut(r *outReq) {
 	delete(g.out, r.id)
 	close(r.respCh)
 	close(r.errCh)
-	g.w.Logf("gs %s request %s terminated err=%v", short(g.self), r.id.String()[30:], r.termErr)
+	if LogAll {
+		g.w.Logf("gs %s request %s terminated err=%v", short(g.self), r.id.String()[30:], r.termErr)
+	}
 }
 
 func (g *GS) cancelOut(r *outReq, err error) {
@@ -495,6 +634,9 @@ func (g *GS) runOut(r *outReq) {
 		r.started = true
 		rd := reqData{id: r.id, root: r.root, sel: r.sel, exts: r.exts, typ: graphsync.RequestTypeNew}
 		g.outProcessing.each(func(l graphsync.OnRequestProcessingListener) { l(r.to, rd, len(g.out)) })
+		if r.state == outDone || r.state == outPaused {
+			return // cancelled or paused from inside a listener
+		}
 	}
 	r.state = outRunning
 	for r.state == outRunning {
@@ -546,7 +688,9 @@ func (g *GS) runOut(r *outReq) {
 				it := r.remote[0]
 				r.remote = r.remote[1:]
 				if it.link != link {
-					g.w.Logf("gs %s MISMATCH traversed=%d item.idx=%d item.link=%s want=%s remaining=%d", short(g.self), r.traversed, it.index, it.link, link, len(r.remote))
+					if LogAll {
+						g.w.Logf("gs %s MISMATCH traversed=%d item.idx=%d item.link=%s want=%s remaining=%d", short(g.self), r.traversed, it.index, it.link, link, len(r.remote))
+					}
 					r.termErr = graphsync.RemoteIncorrectResponseError{LocalLink: cidlink.Link{Cid: link}, RemoteLink: cidlink.Link{Cid: it.link}}
 					g.cancelOut(r, r.termErr)
 					return
@@ -578,7 +722,9 @@ func (g *GS) runOut(r *outReq) {
 			r.inc++
 			r.remote = nil
 			r.remoteDone = false
-			g.w.Logf("gs %s send request %s inc=%d skip=%d", short(g.self), r.id.String()[30:], r.inc, skip)
+			if LogAll {
+				g.w.Logf("gs %s send request %s inc=%d skip=%d", short(g.self), r.id.String()[30:], r.inc, skip)
+			}
 			g.net.send(g.self, r.to, &gsMsg{kind: gsNew, id: r.id, inc: r.inc, root: r.root, sel: r.sel, exts: wireExts(exts)})
 			return
 		}
@@ -600,6 +746,9 @@ func (g *GS) runOut(r *outReq) {
 		}
 		acts := &inBlockActions{}
 		g.inBlockHooks.each(func(h graphsync.OnIncomingBlockHook) { h(r.to, r.last, bd, acts) })
+		if r.state == outDone {
+			return // cancelled from inside the hook
+		}
 		if len(acts.exts) > 0 {
 			g.net.send(g.self, r.to, &gsMsg{kind: gsUpdate, id: r.id, inc: r.inc, exts: wireExts(acts.exts)})
 		}
@@ -623,7 +772,9 @@ func (g *GS) pauseOut(r *outReq) {
 	}
 	r.sent = false
 	r.remote = nil
-	g.w.Logf("gs %s request %s paused at %d", short(g.self), r.id.String()[30:], r.traversed)
+	if LogAll {
+		g.w.Logf("gs %s request %s paused at %d", short(g.self), r.id.String()[30:], r.traversed)
+	}
 }
 
 func replaceExt(exts []graphsync.ExtensionData, e graphsync.ExtensionData) []graphsync.ExtensionData {
@@ -883,6 +1034,9 @@ func (g *GS) runIn(x *inResp) {
 	if !x.started {
 		x.started = true
 		g.inProcessing.each(func(l graphsync.OnRequestProcessingListener) { l(x.from, x.req, len(g.in)) })
+		if g.in[x.id] != x || x.state == inCompleting || x.state == inPaused {
+			return
+		}
 	}
 	x.state = inRunning
 	for x.state == inRunning && g.in[x.id] == x {
@@ -968,6 +1122,9 @@ func (g *GS) runIn(x *inResp) {
 			}
 			ba := &outBlockActions{}
 			g.outBlockHooks.each(func(h graphsync.OnOutgoingBlockHook) { h(x.from, x.req, bd, ba) })
+			if g.in[x.id] != x || x.state == inCompleting {
+				return // cancelled / finished from inside the hook
+			}
 			exts = append(exts, ba.exts...)
 			if ba.pause {
 				paused = true
@@ -984,7 +1141,9 @@ func (g *GS) runIn(x *inResp) {
 			status = graphsync.RequestPaused
 			x.state = inPaused
 		}
-		g.w.Logf("gs %s resp %s inc=%d idx=%d link=%s send=%v", short(g.self), x.id.String()[30:], x.inc, idx, v.link.String()[50:], send)
+		if LogAll {
+			g.w.Logf("gs %s resp %s inc=%d idx=%d link=%s send=%v", short(g.self), x.id.String()[30:], x.inc, idx, v.link.String()[50:], send)
+		}
 		g.sendResp(x, status, []gsItem{it}, exts)
 		if paused {
 			return
@@ -1068,6 +1227,7 @@ func (g *GS) RegisterPersistenceOption(name string, lsys ipld.LinkSystem) error 
 		return errors.New("persistence option alreayd registered")
 	}
 	g.persist[name] = lsys
+	g.logCall(GSCall{Kind: "register", Name: name})
 	g.w.Logf("gs %s register persistence %s", short(g.self), name)
 	return nil
 }
@@ -1076,6 +1236,7 @@ func (g *GS) UnregisterPersistenceOption(name string) error {
 		return errors.New("persistence option is not registered")
 	}
 	delete(g.persist, name)
+	g.logCall(GSCall{Kind: "unregister", Name: name})
 	g.w.Logf("gs %s unregister persistence %s", short(g.self), name)
 	return nil
 }
@@ -1119,8 +1280,13 @@ func (g *GS) RegisterReceiverNetworkErrorListener(l graphsync.OnReceiverNetworkE
 	return g.recvNetErr.add(l)
 }
 
-func (g *GS) Pause(ctx context.Context, id graphsync.RequestID) error {
+func (g *GS) Pause(ctx context.Context, id graphsync.RequestID) (rerr error) {
 	simrt.Yield("gs.pause")
+	ci := g.logCall(GSCall{Kind: "pause", ID: id})
+	defer g.setErr(ci, &rerr)
+	if g.dead {
+		return graphsync.RequestNotFoundErr{}
+	}
 	if r := g.out[id]; r != nil {
 		if r.state == outPaused {
 			return errors.New("request is already paused")
@@ -1139,8 +1305,13 @@ func (g *GS) Pause(ctx context.Context, id graphsync.RequestID) error {
 	return nil
 }
 
-func (g *GS) Unpause(ctx context.Context, id graphsync.RequestID, exts ...graphsync.ExtensionData) error {
+func (g *GS) Unpause(ctx context.Context, id graphsync.RequestID, exts ...graphsync.ExtensionData) (rerr error) {
 	simrt.Yield("gs.unpause")
+	ci := g.logCall(GSCall{Kind: "unpause", ID: id, Exts: exts})
+	defer g.setErr(ci, &rerr)
+	if g.dead {
+		return graphsync.RequestNotFoundErr{}
+	}
 	if r := g.out[id]; r != nil {
 		if r.state != outPaused {
 			return errors.New("request is not paused")
@@ -1167,8 +1338,13 @@ func (g *GS) Unpause(ctx context.Context, id graphsync.RequestID, exts ...graphs
 	return nil
 }
 
-func (g *GS) Cancel(ctx context.Context, id graphsync.RequestID) error {
+func (g *GS) Cancel(ctx context.Context, id graphsync.RequestID) (rerr error) {
 	simrt.Yield("gs.cancel")
+	ci := g.logCall(GSCall{Kind: "cancel", ID: id})
+	defer g.setErr(ci, &rerr)
+	if g.dead {
+		return graphsync.RequestNotFoundErr{}
+	}
 	if r := g.out[id]; r != nil {
 		g.cancelOut(r, graphsync.RequestClientCancelledErr{})
 		return nil
@@ -1185,8 +1361,13 @@ func (g *GS) Cancel(ctx context.Context, id graphsync.RequestID) error {
 	return nil
 }
 
-func (g *GS) SendUpdate(ctx context.Context, id graphsync.RequestID, exts ...graphsync.ExtensionData) error {
+func (g *GS) SendUpdate(ctx context.Context, id graphsync.RequestID, exts ...graphsync.ExtensionData) (rerr error) {
 	simrt.Yield("gs.update")
+	ci := g.logCall(GSCall{Kind: "update", ID: id, Exts: exts})
+	defer g.setErr(ci, &rerr)
+	if g.dead {
+		return graphsync.RequestNotFoundErr{}
+	}
 	if r := g.out[id]; r != nil {
 		g.net.send(g.self, r.to, &gsMsg{kind: gsUpdate, id: id, inc: r.inc, exts: wireExts(exts)})
 		return nil
